@@ -71,6 +71,11 @@ func (fr *Frame) paramSVs() map[string]SV {
 
 func (fr *Frame) localByName(st *State, name string) (SV, bool) {
 	r := fr.run
+	if fr.fn == r.top {
+		if a, ok := r.localAlias[name]; ok {
+			name = a
+		}
+	}
 	var found *ssa.Alloc
 	for _, a := range fr.fn.Locals {
 		if a.Comment == name {
